@@ -128,6 +128,77 @@ pub fn media(fmt: &str, d: &[u8]) -> Option<Vec<String>> {
     }
 }
 
+// ---------------------------------------------------------------- foreign (non-manifest) structures
+pub const FOREIGN: &[u8] = b"VH-FOREIGN-PAYLOAD-7f3a91c2-not-c2pa";
+
+fn crc32(data: &[u8]) -> u32 {
+    let mut c = 0xffff_ffffu32;
+    for b in data { c ^= *b as u32; for _ in 0..8 { c = if c & 1 != 0 { (c >> 1) ^ 0xedb8_8320 } else { c >> 1 }; } }
+    !c
+}
+
+fn bx(t: &[u8; 4], payload: &[u8]) -> Vec<u8> {
+    let mut v = ((8 + payload.len()) as u32).to_be_bytes().to_vec();
+    v.extend_from_slice(t); v.extend_from_slice(payload); v
+}
+
+/// The fixture plus one structure of another application carrying FOREIGN exactly once, placed where the manifest
+/// ends up next to it (segments / chunks / boxes / comments that every conforming reader must preserve).
+pub fn decorate(name: &str, src: &[u8]) -> Option<Vec<u8>> {
+    match name {
+        "jpeg" => {
+            // a JPEG XT APP11 segment holding a JUMBF superbox of a non-C2PA type, with its own box instance number
+            let mut jumd = vec![0x78, 0x5f, 0x34, 0xb7, 0x5d, 0x4b, 0x47, 0x4c, 0xb8, 0x9f, 0x1d, 0x99, 0xe0, 0xe3, 0xa8, 0xdd, 0x03];
+            jumd.extend_from_slice(b"foreign.metadata\0");
+            let mut sup = bx(b"jumd", &jumd);
+            sup.extend_from_slice(&bx(b"xml ", FOREIGN));
+            let jumb = bx(b"jumb", &sup);
+            let mut payload = b"JP".to_vec(); payload.extend_from_slice(&[0x00, 0x01]); payload.extend_from_slice(&1u32.to_be_bytes()); payload.extend_from_slice(&jumb);
+            let mut seg = vec![0xff, 0xeb]; seg.extend_from_slice(&((2 + payload.len()) as u16).to_be_bytes()); seg.extend_from_slice(&payload);
+            let mut pos = 2;
+            if src.get(2..4) == Some(&[0xff, 0xe0]) { pos += 2 + u16::from_be_bytes([src[4], src[5]]) as usize; }
+            let mut o = src[..pos].to_vec(); o.extend_from_slice(&seg); o.extend_from_slice(&src[pos..]); Some(o)
+        }
+        "png" => {
+            // private ancillary chunk right after IHDR
+            let pos = 8 + 8 + 13 + 4;
+            let mut ch = (FOREIGN.len() as u32).to_be_bytes().to_vec();
+            let mut body = b"vhMk".to_vec(); body.extend_from_slice(FOREIGN);
+            ch.extend_from_slice(&body); ch.extend_from_slice(&crc32(&body).to_be_bytes());
+            let mut o = src[..pos].to_vec(); o.extend_from_slice(&ch); o.extend_from_slice(&src[pos..]); Some(o)
+        }
+        "gif" => {
+            // application extension after the logical screen descriptor / global colour table
+            let packed = *src.get(10)?;
+            let gct = if packed & 0x80 != 0 { 3 * (1usize << ((packed & 7) + 1)) } else { 0 };
+            let pos = 13 + gct;
+            let mut ext = vec![0x21, 0xff, 0x0b]; ext.extend_from_slice(b"VHFOREIGN10"); ext.push(FOREIGN.len() as u8); ext.extend_from_slice(FOREIGN); ext.push(0);
+            let mut o = src[..pos].to_vec(); o.extend_from_slice(&ext); o.extend_from_slice(&src[pos..]); Some(o)
+        }
+        "webp" | "wav" | "avi" => {
+            // one more chunk at the end of the RIFF list
+            let mut o = src.to_vec();
+            let mut ch = b"vhMK".to_vec(); ch.extend_from_slice(&(FOREIGN.len() as u32).to_le_bytes()); ch.extend_from_slice(FOREIGN); if FOREIGN.len() % 2 == 1 { ch.push(0); }
+            let riff_len = u32::from_le_bytes([o[4], o[5], o[6], o[7]]) as usize;
+            if 8 + riff_len != o.len() { return None; }
+            o.extend_from_slice(&ch);
+            let n = (riff_len + ch.len()) as u32; o[4..8].copy_from_slice(&n.to_le_bytes()); Some(o)
+        }
+        "mp4" | "avif" | "heic" => {
+            // a top-level uuid box of another application at the end of the file
+            let mut p = vec![0x11u8, 0x22, 0x33, 0x44, 0x55, 0x66, 0x47, 0x88, 0x99, 0xaa, 0xbb, 0xcc, 0xdd, 0xee, 0xff, 0x01]; p.extend_from_slice(FOREIGN);
+            let mut o = src.to_vec(); o.extend_from_slice(&bx(b"uuid", &p)); Some(o)
+        }
+        "jxl" => { let mut o = src.to_vec(); o.extend_from_slice(&bx(b"vhmk", FOREIGN)); Some(o) }
+        "svg" => {
+            let s = String::from_utf8_lossy(src).to_string();
+            let i = s.rfind("</svg>")?;
+            Some(format!("{}<!-- {} -->{}", &s[..i], String::from_utf8_lossy(FOREIGN), &s[i..]).into_bytes())
+        }
+        _ => None,
+    }
+}
+
 pub const FORMATS: [(&str, &str, &str); 14] = [
     ("jpeg", "image/jpeg", "no_manifest.jpg"), ("png", "image/png", "libpng-test.png"), ("gif", "image/gif", "sample1.gif"), ("webp", "image/webp", "sample1.webp"),
     ("wav", "audio/wav", "sample1.wav"), ("avi", "video/avi", "test.avi"), ("tiff", "image/tiff", "TUSCANY.TIF"), ("svg", "image/svg+xml", "sample1.svg"),
@@ -166,7 +237,10 @@ pub fn run(args: &[String]) {
             let mk_store = |id: &str, len: usize, rng: &mut StdRng| -> Vec<u8> {
                 if is_bmff { real_store(id, len.min(70000)).unwrap_or_default() } else { build_store(id, len, rng) }
             };
-            let start: Vec<u8> = match layout {
+            let foreign = layout.starts_with("foreign");
+            let src: Vec<u8> = if foreign { match decorate(name, &src) { Some(d) => d, None => continue } } else { src.clone() };
+            let layout_base = if layout == "foreign-manifest" { "manifest" } else if layout == "foreign" { "bare" } else { layout };
+            let start: Vec<u8> = match layout_base {
                 "bare" => src.clone(),
                 "manifest" => match save_jumbf_to_memory(mime, &src, &mk_store("old", base_len + 37, &mut rng)) { Ok(a) => a, Err(e) => { out.emit(&json!({"format": name, "vector": v, "setup_error": format!("write old: {}", err_kind(&e))})); continue } },
                 _ => src.clone(),
@@ -175,8 +249,8 @@ pub fn run(args: &[String]) {
             let removed_orig = remove(mime, &start);
             let mut cur = start.clone();
             let mut steps = vec![];
-            let mut prev_store: Option<(String, usize)> = if layout == "manifest" { Some(("old".into(), usize::MAX)) } else { None };
-            let mut written: Vec<String> = if layout == "manifest" { vec!["old".into()] } else { vec![] };
+            let mut prev_store: Option<(String, usize)> = if layout_base == "manifest" { Some(("old".into(), usize::MAX)) } else { None };
+            let mut written: Vec<String> = if layout_base == "manifest" { vec!["old".into()] } else { vec![] };
             for op in v["ops"].as_array().unwrap() {
                 let op = op.as_str().unwrap();
                 let r = catch(std::panic::AssertUnwindSafe(|| -> Value {
@@ -196,6 +270,7 @@ pub fn run(args: &[String]) {
                                 let m = media(name, &o);
                                 rec["media_same"] = match (&orig_media, &m) { (Some(a), Some(b)) => json!(a == b), (Some(_), None) => json!(false), _ => Value::Null };
                                 rec["len"] = json!(o.len());
+                                if foreign { rec["foreign"] = json!(count(&o, FOREIGN)); }
                                 cur = o;
                             }
                             Err(e) => { rec["ok"] = json!(false); rec["err"] = json!(e); }
@@ -245,6 +320,7 @@ pub fn run(args: &[String]) {
                                 rec["boxmap"] = match bm { Ok(b) => json!({"len": o.len(), "ranges": b.iter().map(|x| json!([x.range_start, x.range_len, x.names.join("+")])).collect::<Vec<_>>()}), Err(e) => json!({"err": err_kind(&e)}) };
                             }
                             rec["len"] = json!(o.len());
+                            if foreign { rec["foreign"] = json!(count(&o, FOREIGN)); }
                             cur = o;
                         }
                         Err(e) => { rec["ok"] = json!(false); rec["err"] = json!(err_kind(&e)); }
@@ -263,7 +339,7 @@ pub fn run(args: &[String]) {
                     Err(p) => { steps.push(json!({"op": op, "panic": p})); break; }
                 }
             }
-            out.emit(&json!({"format": name, "layout": layout, "base_len": base_len, "ops": v["ops"], "has_media_walker": orig_media.is_some(), "steps": steps}));
+            out.emit(&json!({"format": name, "layout": layout, "foreign_at_start": if foreign { json!(count(&start, FOREIGN)) } else { Value::Null }, "base_len": base_len, "ops": v["ops"], "has_media_walker": orig_media.is_some(), "steps": steps}));
         }
     }
 }
